@@ -78,6 +78,10 @@ impl SymbolTable {
     pub fn get_num_definitions(&self) -> usize {
         self.num_definitions
     }
+    /// Never hand out the first `count` slots again (they may still be in use)
+    pub fn reserve_definitions(&mut self, count: usize) {
+        self.num_definitions = self.num_definitions.max(count);
+    }
 
     // If the SymbolTable being called is not enclosed in another SymbolTable,
     // i.e. its outer field is not set, then its scope is global.
